@@ -33,7 +33,7 @@ ASSUMPTIONS = [
     "dies, the root's own watch still reports, root deletion yields exactly one DirDeletedEvent(root) and a stopped emitter",
     "transient failures are injected at the module-global inotify_add_watch of watchdog.observers.inotify_c (errno via ctypes.set_errno)",
 ]
-MINIMUMS = {"quick": {"root_probes_judged": 300, "root_deletions_judged": 50, "faults_fired": 30, "selfstop_hold_cases_reached": 10, "api_hold_cases_reached": 80, "arrival_faults_fired": 30},
+MINIMUMS = {"quick": {"root_probes_judged": 300, "root_deletions_judged": 50, "faults_fired": 30, "selfstop_hold_cases_reached": 10, "api_hold_cases_reached": 50, "arrival_faults_fired": 15},
             "thorough": {"root_probes_judged": 8000, "root_deletions_judged": 1000}}
 WALL_CAP = {"quick": 170, "thorough": 3000}
 
